@@ -234,6 +234,12 @@ class Exec:
                 try: v = getattr(importlib.import_module(base.name), attr, None)
                 except ImportError: v = None
                 if isinstance(v, (int, str)) and not isinstance(v, bool): yield st, v; return
+                def _plain(x):
+                    if x is None or isinstance(x, (str, int, bool)): return True
+                    if isinstance(x, (list, tuple)): return all(_plain(y) for y in x)
+                    if isinstance(x, dict): return all(_plain(k) and _plain(y) for k, y in x.items())
+                    return False
+                if isinstance(v, (dict, tuple, list)) and _plain(v): yield st, v; return
             yield st, BuiltinRef(base.name + "." + attr); return
         if isinstance(base, Ref):
             obj = st.heap.setdefault(base.oid, {})
@@ -593,11 +599,19 @@ class Exec:
 
     # ------------------------------------------------------------ calls
     def ev_Call(self, node, st):
-        if any(isinstance(a, ast.Starred) for a in node.args): raise Unsupported("starred call")
+        starred = [isinstance(a, ast.Starred) for a in node.args]
         for s, fn in self.ev(node.func, st):
             if isinstance(fn, Raise): yield s, fn; continue
-            for s2, args in self.ev_seq(node.args, s):
+            for s2, args in self.ev_seq([a.value if isinstance(a, ast.Starred) else a for a in node.args], s):
                 if isinstance(args, Raise): yield s2, args; continue
+                if any(starred):
+                    flat = []
+                    for is_star, a in zip(starred, args):
+                        if is_star:
+                            if not isinstance(a, (tuple, list)): raise Unsupported("* of a symbolic sequence")
+                            flat.extend(a)
+                        else: flat.append(a)
+                    args = flat
                 for s3, kwv in self.ev_seq([k.value for k in node.keywords], s2):
                     if isinstance(kwv, Raise): yield s3, kwv; continue
                     kw = {}
